@@ -88,18 +88,24 @@ def worker(job):
         # must be the step's eager result under *every* assignment of the placeholders
         if S and valued:
             try:
-                truth = {}
+                truth, bound = {}, {}
                 for label, sd in (("original", seed), ("other", seed + 7919)):
                     vv = progs.eager_inputs(prog, sizes, sd)
                     mixed = [vv[k] if k in S else vals[k] for k in range(n)]
                     rs = progs.execute(prog, [ndx.asarray(v) for v in mixed])
                     truth[label] = [r.to_numpy() for r in rs]
+                    bound[label] = mixed
                 for j in valued:
                     if not (dep[j] & S):
                         continue
                     for label in ("original", "other"):
                         if truth[label][j] is not None and not progs.same_value(truth[label][j], reported[j]):
-                            rec["fail"].append({**case, "kind": "value-reported-for-placeholder-dependent-result", "step": j,
+                            extra = {}
+                            if prog["steps"][j]["op"] == "where":
+                                # which shortcut of `where` produced the value (the recorded equal-branches fold keeps
+                                # broadcast(x, y) and drops a placeholder condition's extents)
+                                extra["cause"] = progs.where_cause(prog, j, bound[label], truth[label])
+                            rec["fail"].append({**case, **extra, "kind": "value-reported-for-placeholder-dependent-result", "step": j,
                                                 "op": prog["steps"][j]["op"], "assignment": label,
                                                 "reported": str(impl.canon(reported[j]))[:300],
                                                 "eager": str(impl.canon(truth[label][j]))[:300]})
